@@ -4,6 +4,7 @@ import math
 from fractions import Fraction as F
 
 from .. import alphabet as A
+from .. import core
 from .. import refmodel as R
 from .. import shapes as S
 
@@ -167,10 +168,13 @@ def gen_cases(tier, seed):
             ch = ch[:1]
         for grp in (ch[i:i + g2] for i in range(0, len(ch), g2)):
             chained.append(dict(target=tg, chains=grp))
-    return cases + chained
+    sessions = [dict(kind='session', name=n) for n in ('turntable', 'staircase', 'zoom')]
+    return cases + chained + sessions
 
 
 def case_weight(c):
+    if c.get('kind') == 'session':
+        return 4000
     w = 0
     for d in c['target']['shapes']:
         x = 1
@@ -349,7 +353,26 @@ def _feat_ops(chain):
 
 # ----------------------------------------------------------------------------------------
 
+def _session_cases(name, tier):
+    """long sessions: a turntable (0..180 degrees and back in 5-degree steps: 37 distinct angles, every one revisited), a
+    translation staircase and a zoom, each on one small rational shape; every step is judged like any other transform"""
+    crv = dict(shapes=[_sd([_kv(2, [(0.5, 1)])], [2], True, 3)], container=False)
+    srf = dict(shapes=[_sd([_kv(1, []), _kv(2, [(0.5, 1)])], [1, 2], True, 3)], container=False)
+    up = list(range(0, 181, 5))
+    angles = up + up[-2::-1]
+    if name == 'turntable':
+        return [dict(target=crv if i % 2 == 0 else srf, chains=[[dict(op='rotate', angle=float(a), axis=i % 3)]], inplace=[False],
+                     pre_read=[False]) for i, a in enumerate(angles)]
+    if name == 'staircase':
+        return [dict(target=crv, chains=[[dict(op='translate', vec=[float(k), 0.5 * k, -1.0 * (k % 7)])]], inplace=[False, True],
+                     pre_read=[False]) for k in range(1, 71)]
+    return [dict(target=srf, chains=[[dict(op='scale', factor=1.0 + k / 16.0)]], inplace=[False], pre_read=[False]) for k in range(1, 71)]
+
+
 def run_case(case, ctx):
+    if case.get('kind') == 'session':
+        import sys
+        return core.run_session(sys.modules[__name__], ctx, case, _session_cases(case['name'], ctx.tier), 12)
     tg = case['target']
     seed = ctx.seed
     descs = tg['shapes']
